@@ -307,6 +307,33 @@ def _lf_opt(lf):
 
 LF_OPS = {"scope": _lf_scope, "const": _lf_const, "mprobs": _lf_mprobs, "optimise": _lf_opt}
 
+LOCI = ["exon2", "exon1"]  # deliberately not in lexicographic order
+
+
+def make_lf_multi():
+    from cogent3 import get_model, make_aligned_seqs, make_tree
+
+    tree = make_tree("((a:0.1,b:0.2):0.05,c:0.3,d:0.15)")
+    a1 = make_aligned_seqs({k: v.replace("R", "A") for k, v in ALN.items()}, moltype="dna")
+    a2 = make_aligned_seqs({"a": "TTGACCAGTACA", "b": "TTGACTAGTACA", "c": "TAGACCAGTGCA", "d": "TTGTCCAGTACA"}, moltype="dna")
+    lf = get_model("HKY85").make_likelihood_function(tree, loci=LOCI)
+    lf.set_alignment([a1, a2])
+    return lf
+
+
+def lf_multi_proj(lf):
+    d = lf_proj(lf)
+    d["alignments"] = {name: {k: str(v) for k, v in lf.get_param_value("alignment", locus=name).to_dict().items()} for name in LOCI}
+    return d
+
+
+def _lfm_locus_kappa(lf):
+    lf.set_param_rule("kappa", locus="exon1", init=4.0)
+    return lf
+
+
+LFM_OPS = {"const": _lf_const, "locus_kappa": _lfm_locus_kappa}
+
 
 # ------------------------------------------------------------------ static things, results
 def static_proj(o):
@@ -401,6 +428,7 @@ KINDS = {
     "aligned": (make_aligned, ALIGNED_OPS, aligned_proj),
     "annotation_db": (make_adb, ADB_OPS, adb_proj),
     "lf": (make_lf, LF_OPS, lf_proj),
+    "lf_multilocus": (make_lf_multi, LFM_OPS, lf_multi_proj),
     "submodel": (make_submodel, {}, static_proj),
     "codon_model": (make_codon_model, {}, static_proj),
     "moltype": (make_moltype, {}, static_proj),
